@@ -111,10 +111,13 @@ def run_case(case):
         threads = []
         t0 = time.time()
         if load == "late-long-request":
-            time.sleep(T / 2.0 + 0.3)                 # let the idle loop's own heartbeat pass
-            one("/pid")                               # heartbeat
-            time.sleep(T / 4.0 - 0.25)                # less than a quarter of the timeout later ...
-            one("/slow/%.1f" % (0.86 * T))            # ... a healthy request shorter than the timeout
+            # two quick requests a bit more than timeout/4 apart (the second one is then certainly preceded by a heartbeat),
+            # and a bit less than timeout/4 later a healthy request of 0.9 x timeout
+            one("/pid")
+            time.sleep(T / 4.0 + 0.2)
+            one("/pid")
+            time.sleep(T / 4.0 - 0.3)
+            one("/slow/%.1f" % (0.9 * T))
         elif load == "half-timeout-requests":
             while time.time() - t0 < 3 * T:
                 one("/slow/%.1f" % (T / 2.0))
